@@ -28,7 +28,7 @@ def patches_for(pid):
         meta = json.load(open(mp))
         checks = meta.get('checked_by', {})
         if pid in checks or meta.get('property') == pid:
-            exp = checks.get(pid, {}).get('expect', meta.get('expect', 'missed'))
+            exp = checks.get(pid, {}).get('expect', 'missed')
             out.append(('seeded/' + os.path.basename(d), os.path.join(d, 'patch.diff'), exp, checks.get(pid, {}).get('rule'), meta.get('summary', '')))
     return out
 
